@@ -193,7 +193,7 @@ func marked(marker string) []int {
 	return pids
 }
 
-// sigkillPending reports whether the process has SIGKILL pending (it is dying) or is already a zombie.
+// dying reports whether the process has SIGKILL pending (it is dying) or is already a zombie.
 func dying(pid int) bool {
 	b, err := os.ReadFile(fmt.Sprintf("/proc/%d/status", pid))
 	if err != nil {
@@ -411,19 +411,27 @@ func run(c Case, o *lib.Obs) error {
 	}
 	wg.Wait()
 	nt := false
-	for i, s := range c.Scripts {
-		o.Label("parent_" + s.Parent)
-		o.LabelIf(s.IgnoreTerm, "parent_ignores_term")
-		o.LabelIf(len(s.Children) > 0, "background_child")
-		o.LabelIf(s.holdsPipes(), "child_holds_pipes")
-		for _, ch := range s.Children {
-			o.Label("child_" + ch.Kind)
+	seen := map[string]bool{}
+	label := func(cond bool, l string) { // once per case: fractions are "cases with at least one such script"
+		if cond && !seen[l] {
+			seen[l] = true
+			o.Label(l)
 		}
-		o.LabelIf(results[i].normal, "returned_by_exit")
-		o.LabelIf(!results[i].normal, "returned_by_timeout")
+	}
+	for i, s := range c.Scripts {
+		label(true, "parent_"+s.Parent)
+		label(s.IgnoreTerm, "parent_ignores_term")
+		label(len(s.Children) > 0, "background_child")
+		label(s.holdsPipes(), "child_holds_pipes")
+		for _, ch := range s.Children {
+			label(true, "child_"+ch.Kind)
+		}
+		label(results[i].normal, "returned_by_exit")
+		label(!results[i].normal, "returned_by_timeout")
 		nt = nt || s.nontrivial()
 	}
 	o.NonTrivial(nt)
+	lib.Rec(spec).AddExtra("scripts_run", int64(len(c.Scripts)))
 	for _, r := range results {
 		if r.fail != nil {
 			return r.fail
@@ -446,5 +454,5 @@ func TestMain(m *testing.M) {
 
 func TestC30(t *testing.T) {
 	defer killMarked(markPrefix)
-	lib.Check(t, spec, lib.Scale(30, 600), gen, run)
+	lib.Check(t, spec, lib.Scale(40, 600), gen, run)
 }
